@@ -60,9 +60,10 @@ def stmt_units(tree, toks, src_blines=None):
             b0 = body[0]
             if hasattr(b0, 'lineno'):
                 bstart = (b0.lineno, 0 if getattr(b0, 'decorator_list', None) else getattr(b0, 'col_offset', 0))
-            else:  # match_case has no position: first token 'case'
-                k = [c for c in ast.walk(b0) if hasattr(c, 'lineno')]
-                bstart = (min(c.lineno for c in k), 0)
+            else:  # match_case has no position: its 'case' keyword token
+                pat = b0.pattern
+                kw = [t for t in sig if t.string == 'case' and t.start < (pat.lineno, pat.col_offset)]
+                bstart = kw[-1].start if kw else (pat.lineno, 0)
             ts = [t for t in sig if t.start >= (start[0], 0) and t.start < bstart and t.start[0] >= start[0]]
             ts = [t for t in ts if (t.start[0], t.start[1]) >= (start[0], 0)]
             units.append(('header', node, ts))
